@@ -6,6 +6,9 @@ def build(P):
     P.category = "other"
     H.setup(P)
     H.add_handlers(P, ("C03",))
+    P.native("quiescence-invariants", "natives.c01:corpus", kind="bounded", clause="C03:", timeout=900,
+             bound="the C01 corpus (about 70 machines x 2 inputs x schedules) on the real engine + task dispatcher: at quiescence "
+                   "nothing is unacknowledged, no join state / cancellers are left, no exception escaped")
     P.explanation = ("Typestate contract on every path of every state handler: acknowledge() has the call-site precondition "
                      "`issued` (a successor event was published / the terminal route taken / the event handed to a join or a "
                      "continuation), and at every exit the event is acked, held by a join or owned by a registered continuation; "
